@@ -361,7 +361,9 @@ func (o *OracleC13) AfterBlock(c *Chain, b *BlockCtx) []*Violation {
 	return out
 }
 
-func (o *OracleC13) settledChecked(id uint64) bool { return o.t.refunded[fmt.Sprintf("settled|%d", id)] }
+func (o *OracleC13) settledChecked(id uint64) bool {
+	return o.t.refunded[fmt.Sprintf("settled|%d", id)]
+}
 
 func (o *OracleC13) refundedTwice(key string) bool { return o.t.refunded[key] }
 
